@@ -6,15 +6,18 @@ PROP = dict(
     module="FV.C01.Props",
     coq_targets=["theories/C01/Props.vo"],
     theorems=["schedule_independence", "conflict_order_determines_store", "timestamp_is_a_function_of_the_epoch",
-              "variation_model_ignores_hash_order", "preliminary_glyph_order_ignores_hash_order"],
-    prelude="From Coq Require Import List ZArith Bool.\nFrom FV.C01 Require Import Model.",
+              "variation_model_ignores_hash_order", "preliminary_glyph_order_ignores_hash_order",
+              "name_record_order_ignores_hash_order", "checked_name_records_are_canonical",
+              "sorting_by_a_total_order_erases_arrival_order"],
+    prelude="From Coq Require Import List ZArith NArith Bool.\nFrom FV.C01 Require Import Model.\nImport ListNotations.",
     harness_args=lambda tier, seed: ["--seed", str(seed), "--n", str(N[tier]), "--corpus", str(CORPUS[tier]),
                                      "--builds", str(BUILDS[tier])],
     rule="a seed-dependent sample of resources/testdata (UFO, designspace, Glyphs 2/3) plus generated sources (8-40 "
          "glyphs, composites, anchors, kerning groups and many pairs, non-export glyphs, FEA with feature names, 1-2 axes, "
          "3 masters, instances repeating name strings, a rule); each source is compiled 6 (thorough: 12) times in "
          "separate processes - fresh hash seeds - with RAYON_NUM_THREADS in {1,2,3,8,16} and SOURCE_DATE_EPOCH fixed; "
-         "all outputs must be byte-identical. Non-trivial = the source compiles; distinct = distinct source.",
+         "all outputs must be byte-identical; the name records of each font are handed to the model's sort in two other orders "
+         "and must come out as the font has them. Non-trivial = the source compiles; distinct = distinct source.",
     trusted_base=["Coq 8.16.1 kernel (coqc; vm_compute for the timestamp cases)",
                   "scheduler model FV.C02.Model (tied to the code by the C02 check) and the conflict-serialisability "
                   "development FV.C01.Det / SchedDet; hand-written timestamp model tied to head.created/modified",
@@ -32,7 +35,8 @@ MANIFEST = dict(
          "covering all read/write conflicts, any two schedules of the scheduler model that run the same jobs end in the same "
          "store (conflict-serialisability proved from scratch, connected to the scheduler's launch order); (2) head "
          "timestamps are a function of SOURCE_DATE_EPOCH; (3) hash-order independence of modelled cores (variation model, "
-         "preliminary glyph order). Partial: the remaining HashMap uses and the real runtime are covered by differential "
+         "preliminary glyph order, name records: a sort by a total order erases the arrival order, and each compiled font's "
+         "name records are checked to be the model's sort of other arrival orders). Partial: the remaining HashMap uses and the real runtime are covered by differential "
          "builds on every run: each source is built repeatedly in separate processes with different thread counts and all "
          "outputs must be byte-identical; differing builds are reported with the source and the differing tables.",
     note="Trusted: Coq kernel; the scheduler model and its tie (C02 check); Rust harness spawning separate build processes. "
